@@ -47,6 +47,7 @@ type Cmd struct {
 	V1Pid  string   `json:"v1pid,omitempty"`      // evolve: package of the older schema version
 	SkipB  []bool   `json:"skipb,omitempty"`      // corrupt: inputs not to run through UnmarshalBebop
 	SkipS  []bool   `json:"skips,omitempty"`      // corrupt: inputs not to run through DecodeBebop
+	Alt    []int    `json:"alt,omitempty"`        // codec: the reference encoding of another value of the same schema
 	Big    bool     `json:"bigpayload,omitempty"` // stream: also with the first string / byte array stretched beyond buffer sizes
 }
 
@@ -401,6 +402,34 @@ func opCodec(pi *pkgInfo, c *Cmd) {
 			if in.srcs[0] != "ref" {
 				e.In = ints(in.b)
 				e.HasIn = true
+			}
+			emit(e)
+			m++
+		}
+	}
+	// a receiver that is not fresh: it already holds another value of the schema (decoded by UnmarshalBebop from
+	// c.Alt); whatever a decoder does with what is there, the unchecked decoder must agree with the checked one (C09)
+	if len(c.Alt) > 0 && hasMust(pi, c.Root) {
+		alt := bytesFromInts(c.Alt)
+		for _, api := range []string{"UnmarshalBebop", "MustUnmarshalBebop"} {
+			rec := newRecord(pi.Pid, c.Root)
+			if r0, _, _, _ := call(len(alt), func() error { return rec.UnmarshalBebop(alt) }); r0 != "nil" {
+				break
+			}
+			begin(c.Cid, m, &Event{Ev: "redec", API: api})
+			e := &Event{Ev: "redec", Cid: c.Cid, M: m, API: api}
+			if api == "UnmarshalBebop" {
+				e.Res, e.Msg, e.Big, e.Alloc = call(len(ref), func() error { return rec.UnmarshalBebop(ref) })
+			} else {
+				mu := rec.(mustUnmarshaler)
+				e.Res, e.Msg, e.Big, e.Alloc = call(len(ref), func() error { mu.MustUnmarshalBebop(ref); return nil })
+			}
+			if e.Res == "nil" {
+				if v, err := liftRecord(pi, c.Root, rec); err != nil {
+					e.Res, e.Msg = "harness-error", err.Error()
+				} else {
+					e.Val, e.HasVal = v, true
+				}
 			}
 			emit(e)
 			m++
